@@ -86,6 +86,7 @@ def run(workload, desc, replay_case=None):
     res["monitor_events"] = dict(monitors.COUNTS)
     res["constructor_sites"] = dict(monitors.SITES)
     res["anchor_calls"] = boot.anchor_counts()
+    res["lib_functions_entered"] = boot.lib_functions_entered()
     if os.environ.get("VERIF_FUNCMAP"):
         res["all_function_calls"] = boot.all_counts()
     res["wall_s"] = round(time.time() - t0, 3)
